@@ -16,7 +16,7 @@ RULE = ("cases = (input bytes, depth limit) from skeleton x exhaustive small-alp
 ASSUMPTIONS = ["CPython 3.12, regex and pefile wheels are trusted", "inputs capped at 16 KiB (thorough: one 64 KiB-1 MiB class)",
                "non-termination is operationalised as 3x the per-case CPU budget"]
 EXPECTED_WALL = {"quick": 60, "thorough": 600}
-REQUIRED = {"evaluations": 1000, "views_run": 1000, "gen:skel": 100, "gen:cmd": 50, "gen:pe": 5, "gen:xorbytes": 5}
+REQUIRED = {"evaluations": 1000, "views_run": 1000, "gen:skel": 100, "gen:cmd": 50, "gen:pe": 5, "gen:xorbytes": 5, "gen:repeatunit": 1000}
 
 
 def plan(tier, seed):
@@ -27,6 +27,8 @@ def plan(tier, seed):
     for i in range(nsh):
         shards.append({"name": f"skel{i}", "gen": "skel", "items": items[i::nsh]})
     shards.append({"name": "xor", "gen": "xor"})
+    for i in range(4):
+        shards.append({"name": f"repeatunit{i}", "gen": "repeatunit", "shard": i, "nshards": 4})
     secs = 25 if quick else 300
     for g in ("cmd", "pe", "xorbytes", "matryoshka", "nesting", "seedmut", "soup"):
         shards.append({"name": g, "gen": g, "seconds": secs})
